@@ -213,27 +213,12 @@ func c13Verdict(p *chk.Prog, r *chk.Report) {
 	}
 	if m != nil {
 		g := m.Graph()
-		ok := true
-		n := 0
-		for _, rt := range g.Returns() {
-			rr := retResults(rt)
-			if len(rr) != 1 {
-				ok = false
-				continue
-			}
-			switch {
-			case m.IsConstBool(rr[0], true):
-				n++
-				if !g.Dominated(rt, g.GPat(true, "RECV.allInterfaces", chk.H("RECV", isRecv(m)))) {
-					ok = false
-				}
-			case m.IsConstBool(rr[0], false):
-			case m.MatchWith("RECV.interfaces.Has(IF)", rr[0], chk.H("RECV", isRecv(m)), chk.H("IF", isParamIdx(m, 0))) != nil:
-				n++
-			default:
-				ok = false
-			}
-		}
+		// the result is exactly `i != nil && (i.allInterfaces || i.interfaces.Has(intf))`, however it is spelt
+		spec := chk.GAnd(g.GPat(false, "RECV == nil", chk.H("RECV", isRecv(m))),
+			chk.GOr(g.GPat(true, "RECV.allInterfaces", chk.H("RECV", isRecv(m))),
+				g.GPat(true, "RECV.interfaces.Has(IF)", chk.H("RECV", isRecv(m)), chk.H("IF", isParamIdx(m, 0)))))
+		why := g.BoolResultIs(spec)
+		ok, n := why == "", 2
 		x.Check("matchInterface:all-or-listed", m.Pos(), ok && n == 2, "", "matchInterface can be true for an interface that is not listed although the advertisement is not for all interfaces")
 	}
 }
@@ -334,6 +319,37 @@ func c13Refcount(p *chk.Prog, r *chk.Report) {
 			}
 			for _, c := range g.FindPat("CL.Unwatch(C.ip)", chk.H("C", cur)) {
 				x.Check("DeleteBalancerIP:unwatch-only-last-user", c.Pos(), g.Dominated(c, g.GPat(false, "RECV.ipRefcnt[C.ip.String()] > 0", chk.H("C", cur))), "", "the NDP group is left while another service still uses the address")
+			}
+		}
+		if !ok {
+			// the search form: cur := advs[i] with i the index found for the address (slices.IndexFunc + `i >= 0`)
+			sameIP := func(el func(ast.Expr) bool) chk.Guard {
+				return chk.GAnyOf(g.GPat(true, "EL.ip.Equal(IP)", chk.H("EL", el), chk.H("IP", ip)), g.GPat(true, "IP.Equal(EL.ip)", chk.H("EL", el), chk.H("IP", ip)))
+			}
+			var idx ast.Expr
+			cur := func(e ast.Expr) bool {
+				ix, isIx := ast.Unparen(di.Resolve(e)).(*ast.IndexExpr)
+				if !isIx || !(advs(ix.X) || advs(di.Resolve(ix.X))) {
+					return false
+				}
+				if _, isId := ast.Unparen(e).(*ast.Ident); isId && idx == nil {
+					idx = ix.Index
+				}
+				return true
+			}
+			found := func(s chk.Site) bool { return idx != nil && foundIndex(di, g, idx, s, advs, sameIP) }
+			decs := g.Find(isIncDec(di, "RECV.ipRefcnt[C.ip.String()]", token.DEC, chk.H("C", cur)))
+			if len(decs) == 1 && di.LoopOf(decs[0].Node) == nil && found(decs[0]) {
+				rm := append(g.FindPat("delete(RECV.ips, N)", chk.H("N", name)), g.Find(di.IsAssignPat("RECV.ips[N]", "R", chk.H("N", name)))...)
+				ok = len(rm) == 2
+				for _, s := range rm {
+					if !found(s) || di.LoopOf(s.Node) != nil {
+						ok = false
+					}
+				}
+				for _, c := range g.FindPat("CL.Unwatch(C.ip)", chk.H("C", cur)) {
+					x.Check("DeleteBalancerIP:unwatch-only-last-user", c.Pos(), g.Dominated(c, g.GPat(false, "RECV.ipRefcnt[C.ip.String()] > 0", chk.H("C", cur))), "", "the NDP group is left while another service still uses the address")
+				}
 			}
 		}
 		x.Check("DeleteBalancerIP:removes-and-decrements-once", di.Pos(), ok, "", "withdrawing one address of a service does not remove exactly that advertisement and decrement its reference count once")
